@@ -2,14 +2,27 @@
 //! (with the real `uncompress::Decompress{Zlib,Deflate,Gzip}` = flate2 decoders reading from the ring) through the
 //! verif hooks, against the Lean model (FluteModel/Ring.lean, FluteModel/Drain.lean).  Supports C01 / C04.
 //!
-//! ops: see lean/FluteModel/Drv/Ring.lean.  Oracles (class prefixed with the property served):
-//!   C04:ring-fifo      a ring call answers differently from a bounded FIFO (VecDeque reference, capacity size-1)
+//! ops: see lean/FluteModel/Drv/Ring.lean.
+//!
+//! ORACLE (class prefixed with the property served).  It is RELATIONAL: it states what C04 needs of a byte ring and
+//! nothing about the policy of the ring that exists today (capacity `size - 1`, greedy accept, full-length reads,
+//! index values) - any FIFO-correct ring passes it:
+//!   C04:ring-fifo      write claims to have accepted more than it was offered; read claims more than the buffer holds,
+//!                      delivers more than is pending (a byte never written / delivered twice), delivers bytes that are
+//!                      not the oldest pending ones in order (reordered / altered / skipped), answers end-of-file
+//!                      (`Ok(0)` into a non-empty buffer) while accepted bytes are pending, or - once `finish()` was
+//!                      called - answers WouldBlock while accepted bytes are pending (those bytes are lost)
+//!   C04:ring-unbounded the ring holds more accepted, undelivered bytes than `2 * size + 64` (size = the configured one;
+//!                      the slack admits a ring that rounds its capacity to a power of two or keeps no spare slot)
 //!   C04:ring-panic     a ring call panics
-//!   C04:drain-hang     BlockWriter does not return within the watchdog time
-//!   C04:drain-panic    BlockWriter panics
+//!   C04:drain-hang     BlockWriter does not return within the watchdog time (one constant, `WATCHDOG_S`)
+//!   C04:drain-panic    BlockWriter / a decompressor panics
 //!   C01:inflate-output a valid stream (any chunking) does not come out as the original bytes
 //!   C04:inflate-prefix a truncated stream yields something that is not a prefix of the original bytes
-//!   C04:contract-mu    a real decompressor violates the `Drain.Contract` fields (`mu = P(F) - E` bound, read_decreases)
+//!   C04:contract-mu    a real decompressor hands out more bytes than its input determines, i.e. the candidate measure
+//!                      `mu = P(F) - E` of `Drain.Contract` would be negative (see `run_dc`)
+//! What is COMPARED with the model (exact per-call answers of the ring as it is today) is a different matter: see the
+//! header of lean/FluteModel/Drv/Ring.lean and props.d/C04.json.
 use flute::core::lct::Cenc;
 use flute::verif_hooks as hk;
 use harness_core::{guarded, hex, Ctx, Engine, Oracle, Rng};
@@ -50,43 +63,41 @@ fn unhex(s: &str) -> Option<Vec<u8>> {
     (0..s.len() / 2).map(|i| u8::from_str_radix(s.get(2 * i..2 * i + 2)?, 16).ok()).collect()
 }
 
-/// reference: bounded FIFO
-struct RefFifo {
+/// reference: the bytes accepted and not yet delivered, oldest first.  NO capacity, NO accept / return policy:
+/// the reference follows what the ring says it accepted and checks what it delivers.
+struct RefStream {
     q: VecDeque<u8>,
-    cap: usize,
+    size: usize,
     fin: bool,
-}
-
-impl RefFifo {
-    fn new(size: usize) -> RefFifo {
-        RefFifo { q: VecDeque::new(), cap: size.saturating_sub(1), fin: false }
-    }
-    fn write(&mut self, d: &[u8]) -> usize {
-        let k = d.len().min(self.cap - self.q.len());
-        self.q.extend(&d[..k]);
-        k
-    }
-    /// None = WouldBlock
-    fn read(&mut self, n: usize) -> Option<Vec<u8>> {
-        let m = n.min(self.q.len());
-        if m == 0 {
-            return if self.fin { Some(vec![]) } else { None };
-        }
-        Some(self.q.drain(..m).collect())
-    }
 }
 
 struct Live {
     ring: hk::RingHandle,
-    reference: RefFifo,
+    reference: RefStream,
+}
+
+/// answer of a ring write
+enum WriteObs {
+    Accepted(usize),
+    /// `Err(_)` from `Write::write`: nothing accepted; not a C04 failure (BlockWriter propagates it with `?`)
+    Refused,
+    Panic,
+}
+
+/// answer of a ring read
+enum ReadObs {
+    Bytes(Vec<u8>),
+    WouldBlock,
+    /// any other `Err`: nothing delivered; not a C04 failure (decoder_read turns it into a FluteError)
+    Refused,
+    Panic,
 }
 
 impl Live {
     fn new(size: usize) -> Live {
-        Live { ring: hk::RingHandle::new(size), reference: RefFifo::new(size) }
+        Live { ring: hk::RingHandle::new(size), reference: RefStream { q: VecDeque::new(), size, fin: false } }
     }
-    /// Ok(k) | Err(()) = panic
-    fn write(&mut self, d: &[u8], o: &mut Oracle) -> Result<usize, ()> {
+    fn write(&mut self, d: &[u8], o: &mut Oracle) -> WriteObs {
         let ring = AssertUnwindSafe(&mut self.ring);
         let r = guarded(move || {
             let ring = ring;
@@ -94,24 +105,24 @@ impl Live {
         });
         match r {
             Ok(Some(k)) => {
-                let want = self.reference.write(d);
-                if want != k {
-                    o.fail("C04:ring-fifo", &format!("write of {} bytes accepted {}, a FIFO accepts {}", d.len(), k, want));
+                if k > d.len() {
+                    o.fail("C04:ring-fifo", &format!("write of {} bytes claims to have accepted {}", d.len(), k));
                 }
-                Ok(k)
+                let r = &mut self.reference;
+                r.q.extend(&d[..k.min(d.len())]);
+                if r.q.len() > 2 * r.size + 64 {
+                    o.fail("C04:ring-unbounded", &format!("a ring created with size {} holds {} accepted, undelivered bytes", r.size, r.q.len()));
+                }
+                WriteObs::Accepted(k)
             }
-            Ok(None) => {
-                o.fail("C04:ring-fifo", "write returned Err");
-                Ok(usize::MAX)
-            }
+            Ok(None) => WriteObs::Refused,
             Err(at) => {
                 o.fail("C04:ring-panic", &format!("write panics at {}", at));
-                Err(())
+                WriteObs::Panic
             }
         }
     }
-    /// Ok(Some(bytes)) | Ok(None) = WouldBlock | Err(()) = panic
-    fn read(&mut self, n: usize, o: &mut Oracle) -> Result<Option<Vec<u8>>, ()> {
+    fn read(&mut self, n: usize, o: &mut Oracle) -> ReadObs {
         let mut buf = vec![0u8; n];
         let ring = AssertUnwindSafe(&mut self.ring);
         let b = AssertUnwindSafe(&mut buf);
@@ -120,29 +131,35 @@ impl Live {
             let b = b;
             ring.0.read(&mut b.0[..])
         });
+        let q = &mut self.reference.q;
         match r {
             Ok(hk::HookRead::Ok(k)) => {
-                let got = buf[..k.min(n)].to_vec();
-                let want = self.reference.read(n);
-                if want.as_ref() != Some(&got) || k > n {
-                    o.fail("C04:ring-fifo", &format!("read({}) returned {} bytes {:?}, a FIFO returns {:?}", n, k, &got[..got.len().min(16)], want.map(|w| w.len())));
+                if k > n {
+                    o.fail("C04:ring-fifo", &format!("read into {} bytes claims {} bytes", n, k));
                 }
-                Ok(Some(got))
+                let got = buf[..k.min(n)].to_vec();
+                if got.len() > q.len() {
+                    o.fail("C04:ring-fifo", &format!("read({}) delivers {} bytes, only {} were accepted and not yet delivered", n, got.len(), q.len()));
+                } else if !q.iter().zip(got.iter()).all(|(a, b)| a == b) {
+                    let at = q.iter().zip(got.iter()).position(|(a, b)| a != b).unwrap_or(0);
+                    o.fail("C04:ring-fifo", &format!("read({}) delivers {} bytes that are not the oldest pending ones in order (first difference at byte {})", n, got.len(), at));
+                } else if got.is_empty() && n > 0 && !q.is_empty() {
+                    o.fail("C04:ring-fifo", &format!("read({}) answers end-of-file (Ok(0)) while {} accepted bytes are pending", n, q.len()));
+                }
+                let m = got.len().min(q.len());
+                q.drain(..m);
+                ReadObs::Bytes(got)
             }
             Ok(hk::HookRead::WouldBlock) => {
-                let want = self.reference.read(n);
-                if want.is_some() {
-                    o.fail("C04:ring-fifo", &format!("read({}) would block, a FIFO returns {:?} bytes", n, want.map(|w| w.len())));
+                if self.reference.fin && n > 0 && !q.is_empty() {
+                    o.fail("C04:ring-fifo", &format!("read({}) would block after finish() while {} accepted bytes are pending: they are lost", n, q.len()));
                 }
-                Ok(None)
+                ReadObs::WouldBlock
             }
-            Ok(hk::HookRead::Err(e)) => {
-                o.fail("C04:ring-fifo", &format!("read returned Err {}", e));
-                Ok(None)
-            }
+            Ok(hk::HookRead::Err(_)) => ReadObs::Refused,
             Err(at) => {
                 o.fail("C04:ring-panic", &format!("read panics at {}", at));
-                Err(())
+                ReadObs::Panic
             }
         }
     }
@@ -150,13 +167,25 @@ impl Live {
         self.ring.finish();
         self.reference.fin = true;
     }
-    fn state(&self) -> String {
-        let d = self.ring.debug();
-        let field = |name: &str| -> String {
-            d.rfind(name).map(|i| d[i + name.len()..].chars().take_while(|c| c.is_ascii_alphanumeric()).collect()).unwrap_or_default()
-        };
-        let fin = if field("finish: ") == "true" { 1 } else { 0 };
-        format!("{} {} {}", field("producer: "), field("consumer: "), fin)
+    /// `dr <n>`: read into `n` bytes until end-of-file / WouldBlock / nothing delivered; all bytes delivered, concatenated
+    fn drain(&mut self, n: usize, o: &mut Oracle) -> String {
+        let mut all: Vec<u8> = Vec::new();
+        // every useful read delivers at least one pending byte
+        let mut budget = self.reference.q.len() + 2;
+        loop {
+            match self.read(n, o) {
+                ReadObs::Bytes(b) if b.is_empty() => return format!("ok {} {} eof", all.len(), fnv(&all)),
+                ReadObs::Bytes(b) => all.extend_from_slice(&b),
+                ReadObs::WouldBlock => return format!("ok {} {} WB", all.len(), fnv(&all)),
+                ReadObs::Refused => return "ERR".to_string(),
+                ReadObs::Panic => return "PANIC".to_string(),
+            }
+            if budget == 0 {
+                // only reachable after a `C04:ring-fifo` failure (more delivered than pending)
+                return format!("ok {} {} more", all.len(), fnv(&all));
+            }
+            budget -= 1;
+        }
     }
 }
 
@@ -164,7 +193,12 @@ fn is_prefix(a: &[u8], b: &[u8]) -> bool {
     a.len() <= b.len() && &b[..a.len()] == a
 }
 
-/// the canonical verdict; same rule as `verdict` in lean/FluteModel/Drv/Ring.lean
+/// the canonical verdict; same rule as `verdict` in lean/FluteModel/Drv/Ring.lean.
+/// `<ok|ERR> <full|pfx|trunc|other>` = status of the run (`ok`: every `BlockWriter::write` returned `Ok(true)`) and the
+/// relation of the bytes handed to the object writer with the original; it is printed un-collapsed for `valid` and
+/// `trailing`.  `truncated`: the ideal decompressor of the model knows when an inflater stops, not how much of a cut
+/// stream it can already decode, so `full` is printed as `pfx`.  `garbage`: the model has no inflate algorithm at all,
+/// nothing but termination is predicted - `done` (the real status goes to the evidence distribution only).
 fn verdict(kind: &str, cl: Option<usize>, orig: &[u8], ok: bool, out: &[u8]) -> String {
     let s = if ok { "ok" } else { "ERR" };
     let rel = if out == orig {
@@ -178,15 +212,11 @@ fn verdict(kind: &str, cl: Option<usize>, orig: &[u8], ok: bool, out: &[u8]) -> 
         return "done".to_string();
     }
     if kind == "truncated" {
-        return if rel == "other" { "done other".to_string() } else { "done pfx".to_string() };
+        return format!("{} {}", s, if rel == "other" { "other" } else { "pfx" });
     }
     let short = cl.map(|c| c < orig.len()).unwrap_or(false);
     let rel2 = if short && (rel == "full" || (rel == "pfx" && cl.unwrap_or(0) <= out.len())) { "trunc" } else { rel };
-    if kind == "trailing" {
-        format!("done {}", rel2)
-    } else {
-        format!("{} {}", s, rel2)
-    }
+    format!("{} {}", s, rel2)
 }
 
 fn cenc_of(s: &str) -> Option<Cenc> {
@@ -198,10 +228,13 @@ fn cenc_of(s: &str) -> Option<Cenc> {
     }
 }
 
-const WATCHDOG_S: u64 = 20;
-/// hangs seen so far in this process: the first one gets the full watchdog time, the next ones 3 s, and after
-/// 8 of them (8 leaked spinning threads) the remaining BlockWriter runs are skipped
-static HANGS: std::sync::atomic::AtomicUsize = std::sync::atomic::AtomicUsize::new(0);
+/// ONE watchdog time for every `bw` op, whatever happened before (the harness core has its own per-op watchdog of
+/// `VERIF_OP_TIMEOUT` = 120 s that ends the process with a `.hang` replay; this one fires first so that the class and
+/// the remaining ops are reported too).  A `bw` op takes milliseconds; 60 s of wall clock is a hang, not a slow machine.
+const WATCHDOG_S: u64 = 60;
+
+/// the un-collapsed answer of the last `bw` op (`<ok|ERR> <full|pfx|other> <n>B`), for the evidence distribution only
+static LAST_BW_DETAIL: std::sync::Mutex<String> = std::sync::Mutex::new(String::new());
 
 fn run_bw(t: &[&str], o: &mut Oracle) -> String {
     // bw <cenc> <cl|-> <kind> <L> <orig-hex> <chunk-hex>...
@@ -229,18 +262,14 @@ fn run_bw(t: &[&str], o: &mut Oracle) -> String {
             _ => return "bad-op".to_string(),
         }
     }
-    let hangs = HANGS.load(std::sync::atomic::Ordering::SeqCst);
-    if hangs >= 8 {
-        return "SKIPPED-after-8-hangs".to_string();
-    }
+    *LAST_BW_DETAIL.lock().unwrap() = String::new();
     let (tx, rx) = std::sync::mpsc::channel();
     std::thread::spawn(move || {
         let r = guarded(move || hk::blockwriter_run(cenc, &chunks, cl, true));
         tx.send(r).ok();
     });
-    match rx.recv_timeout(std::time::Duration::from_secs(if hangs == 0 { WATCHDOG_S } else { 3 })) {
+    match rx.recv_timeout(std::time::Duration::from_secs(WATCHDOG_S)) {
         Err(_) => {
-            HANGS.fetch_add(1, std::sync::atomic::Ordering::SeqCst);
             o.fail("C04:drain-hang", &format!("BlockWriter did not return within {} s (kind {}, cl {:?})", WATCHDOG_S, kind, cl));
             "HANG".to_string()
         }
@@ -276,6 +305,11 @@ fn run_bw(t: &[&str], o: &mut Oracle) -> String {
                 }
                 _ => {}
             }
+            *LAST_BW_DETAIL.lock().unwrap() = format!(
+                "{} {}",
+                if ok { "ok" } else { "ERR" },
+                if run.output == orig { "full" } else if is_prefix(&run.output, &orig) { "pfx" } else { "other" }
+            );
             verdict(kind, cl, &orig, ok, &run.output)
         }
     }
@@ -302,11 +336,15 @@ fn determined_output(cenc: Cenc, prefix: &[u8]) -> usize {
     total
 }
 
-/// `dc <cenc> <chunk-hex>...` : differential check of the fields of `Drain.Contract` on the REAL decompressors
-/// (`Decompress{Zlib,Deflate,Gzip}` over the real ring): with F = input bytes accepted so far, E = bytes handed out so
-/// far and P(F) = output determined by those F bytes (independent slice decoder), the candidate measure
-/// `mu = P(F) - E` must (1) never be negative - the decoder is a prefix-monotone transducer, (2) bound the number of
-/// consecutive non-empty reads (`read_decreases`: each uses up at least one unit), so that every drain loop ends.
+/// `dc <cenc> <chunk-hex>...` : measurement of the hypothesis `Drain.Contract` on the REAL decompressors
+/// (`Decompress{Zlib,Deflate,Gzip}` over the real ring), oracle-only (the model ASSUMES the contract, its side of a `dc`
+/// line is a constant).  With F = input bytes accepted so far, E = bytes handed out so far and P(F) = output determined
+/// by those F bytes (independent slice decoder, no ring, no BlockWriter), the candidate measure is `mu = P(F) - E`.
+/// ONE predicate is checked after every non-empty read: `E <= P(F)`, i.e. `mu` is a natural number - the decoder is a
+/// prefix-monotone transducer.  The other field, `read_decreases`, then holds by arithmetic (a non-empty read adds
+/// n >= 1 to E and leaves F unchanged, so `mu` drops by n): it needs no measurement of its own - an earlier version
+/// counted non-empty reads against the budget, a test that could never fire before `E > P(F)` did.  A decoder answering
+/// non-empty reads for ever without input trips `E <= P(F)` after at most P(F) + 1 bytes.
 fn run_dc(t: &[&str], o: &mut Oracle) -> String {
     if t.len() < 3 {
         return "bad-op".to_string();
@@ -327,19 +365,12 @@ fn run_dc(t: &[&str], o: &mut Oracle) -> String {
         let mut emitted = 0usize;
         let mut drain = |d: &mut hk::DecompressHandle, fed: &[u8], emitted: &mut usize, fails: &mut Vec<String>| {
             let p = determined_output(cenc, fed);
-            let budget = p.saturating_sub(*emitted);
-            let mut nonempty = 0usize;
             loop {
                 match d.read(&mut buf) {
                     hk::HookRead::Ok(n) if n > 0 => {
-                        nonempty += 1;
                         *emitted += n;
                         if *emitted > p {
                             fails.push(format!("after {} input bytes the decoder handed out {} bytes, the input determines only {}", fed.len(), *emitted, p));
-                            return;
-                        }
-                        if nonempty > budget {
-                            fails.push(format!("{} non-empty reads with mu = {} (read_decreases violated)", nonempty, budget));
                             return;
                         }
                     }
@@ -379,6 +410,14 @@ fn run_dc(t: &[&str], o: &mut Oracle) -> String {
     }
 }
 
+fn show_write(w: WriteObs) -> String {
+    match w {
+        WriteObs::Accepted(k) => format!("ok {}", k),
+        WriteObs::Refused => "ERR".to_string(),
+        WriteObs::Panic => "PANIC".to_string(),
+    }
+}
+
 pub struct RingEngine {
     live: Option<Live>,
 }
@@ -396,20 +435,22 @@ impl RingEngine {
                 let data: Vec<u8> = (0..k).map(|i| ((ctr + i) % 251 + 1) as u8).collect();
                 ctr += k;
                 match l.write(&data, o) {
-                    Ok(n) => out.push(n.to_string()),
-                    Err(()) => return "PANIC".to_string(),
+                    WriteObs::Accepted(n) => out.push(n.to_string()),
+                    WriteObs::Refused => out.push("ERR".to_string()),
+                    WriteObs::Panic => return "PANIC".to_string(),
                 }
             } else if let Some(n) = tok.strip_prefix('r').and_then(|x| x.parse::<usize>().ok()) {
                 match l.read(n, o) {
-                    Ok(Some(b)) => out.push(hex(&b)),
-                    Ok(None) => out.push("WB".to_string()),
-                    Err(()) => return "PANIC".to_string(),
+                    ReadObs::Bytes(b) => out.push(hex(&b)),
+                    ReadObs::WouldBlock => out.push("WB".to_string()),
+                    ReadObs::Refused => out.push("ERR".to_string()),
+                    ReadObs::Panic => return "PANIC".to_string(),
                 }
             } else {
                 return "bad-op".to_string();
             }
         }
-        format!("{}|{}", out.join(","), l.state())
+        out.join(",")
     }
 }
 
@@ -431,25 +472,24 @@ impl Engine for RingEngine {
                 _ => "bad-op".to_string(),
             },
             ("w", 4) => match (self.live.as_mut(), t[2].parse::<usize>(), t[3].parse::<u64>()) {
-                (Some(l), Ok(n), Ok(s)) => match l.write(&lcg_bytes(n, s), o) {
-                    Ok(k) => format!("ok {}", k),
-                    Err(()) => "PANIC".to_string(),
-                },
+                (Some(l), Ok(n), Ok(s)) => show_write(l.write(&lcg_bytes(n, s), o)),
                 _ => "bad-op".to_string(),
             },
             ("wh", 3) => match (self.live.as_mut(), unhex(t[2])) {
-                (Some(l), Some(d)) => match l.write(&d, o) {
-                    Ok(k) => format!("ok {}", k),
-                    Err(()) => "PANIC".to_string(),
-                },
+                (Some(l), Some(d)) => show_write(l.write(&d, o)),
                 _ => "bad-op".to_string(),
             },
             ("r", 3) => match (self.live.as_mut(), t[2].parse::<usize>()) {
                 (Some(l), Ok(n)) => match l.read(n, o) {
-                    Ok(Some(b)) => format!("ok {} {}", b.len(), fnv(&b)),
-                    Ok(None) => "WB".to_string(),
-                    Err(()) => "PANIC".to_string(),
+                    ReadObs::Bytes(b) => format!("ok {} {}", b.len(), fnv(&b)),
+                    ReadObs::WouldBlock => "WB".to_string(),
+                    ReadObs::Refused => "ERR".to_string(),
+                    ReadObs::Panic => "PANIC".to_string(),
                 },
+                _ => "bad-op".to_string(),
+            },
+            ("dr", 3) => match (self.live.as_mut(), t[2].parse::<usize>()) {
+                (Some(l), Ok(n)) => l.drain(n, o),
                 _ => "bad-op".to_string(),
             },
             ("f", 2) => match self.live.as_mut() {
@@ -457,10 +497,6 @@ impl Engine for RingEngine {
                     l.finish();
                     "ok".to_string()
                 }
-                None => "bad-op".to_string(),
-            },
-            ("st", 2) => match self.live.as_ref() {
-                Some(l) => l.state(),
                 None => "bad-op".to_string(),
             },
             ("seq", 4) => match t[2].parse::<usize>() {
@@ -537,10 +573,29 @@ fn payload(rng: &mut Rng, class: usize, big: bool) -> (Vec<u8>, &'static str) {
     }
 }
 
+/// set by the GENERATOR after the first `bw` op that timed out: the hung thread keeps spinning and every further hang
+/// would cost another `WATCHDOG_S`, so the generator issues no further `bw` op in this run (no op line, hence no
+/// observation line and nothing to mismatch; the bucket `bw:not-issued-after-hang` says how many).  The one hang is
+/// reported as `C04:drain-hang` with its replay.  Replayed op files are executed as written.
+static BW_HUNG: std::sync::atomic::AtomicBool = std::sync::atomic::AtomicBool::new(false);
+
 fn bw_case(ctx: &mut Ctx, eng: &mut dyn Engine, line: String, bucket: &str) {
+    if BW_HUNG.load(std::sync::atomic::Ordering::SeqCst) {
+        ctx.count("bw:not-issued-after-hang");
+        return;
+    }
     let obs = ctx.step(eng, &line);
+    if obs == "HANG" {
+        BW_HUNG.store(true, std::sync::atomic::Ordering::SeqCst);
+    }
     ctx.evaluations += 1;
-    ctx.count(&format!("bw:{}:{}", bucket, obs));
+    let detail = LAST_BW_DETAIL.lock().unwrap().clone();
+    if obs == "done" && !detail.is_empty() {
+        // `garbage`: the compared line is `done`; what the real BlockWriter answered is recorded here
+        ctx.count(&format!("bw:{}:done ({})", bucket, detail));
+    } else {
+        ctx.count(&format!("bw:{}:{}", bucket, obs));
+    }
     let key: String = line.split(' ').enumerate().filter(|(i, _)| *i != 6).map(|(_, s)| s.len().to_string() + &s[..s.len().min(12)]).collect::<Vec<_>>().join(" ");
     ctx.nontrivial(&format!("{} {}", key, fnv(line.as_bytes())));
 }
@@ -550,12 +605,14 @@ pub fn run(ctx: &mut Ctx, eng: &mut dyn Engine) {
     let depth = if thorough { 5 } else { 4 };
     ctx.rule = format!(
         "RingBuffer: every sequence of {} calls from {{write of 0..5 bytes, read into 0..5 bytes, finish}} on rings of size 0..4 (exhaustive), \
-         plus seeded long call sequences on sizes up to 65536 (many wrap-arounds), real ring vs Lean model (return values, bytes, \
-         producer/consumer indices) and vs a VecDeque reference; BlockWriter: real zlib/deflate/gzip streams (empty, tiny, incompressible, \
+         plus seeded long call sequences on sizes up to 65536 (many wrap-arounds, closed by finish + drain): ORACLE relational (accepted <= offered, \
+         reads deliver the oldest pending bytes in order and never more than pending, no end-of-file with bytes pending, pending <= 2*size+64, no panic); \
+         COMPARED with the Lean model: the exact per-call answers of today's ring (bytes accepted, bytes delivered, WouldBlock / Ok(0)) = the \
+         observations of theorem ring_refines_fifo; no internal index. BlockWriter: real zlib/deflate/gzip streams (empty, tiny, incompressible, \
          highly compressible, text), valid / followed by garbage / truncated / pure garbage, in all chunkings (streams up to 12 bytes: every \
          composition; longer: fixed and random chunk sizes), Content-Length absent / exact / larger / smaller, through the real \
-         BlockWriter + flate2 decoders with a {} s watchdog, verdict vs the Lean drain-loop model with the ideal decompressor; \
-         non-trivial = distinct op lines other than trivially empty ones",
+         BlockWriter + flate2 decoders with a {} s watchdog (one constant), status + output relation vs the Lean drain-loop model (Drain.lean) \
+         with the ideal decompressor (pure garbage: termination only); non-trivial = distinct op lines other than trivially empty ones",
         depth, WATCHDOG_S
     );
     // 1. exhaustive short sequences ----------------------------------------------------------------------
@@ -628,11 +685,7 @@ pub fn run(ctx: &mut Ctx, eng: &mut dyn Engine) {
                     ctx.step(eng, &format!("ring r {}", n));
                 }
                 _ => {
-                    if size <= 64 {
-                        ctx.step(eng, "ring st");
-                    } else {
-                        ctx.step(eng, "ring r 1");
-                    }
+                    ctx.step(eng, "ring r 1");
                 }
             }
             if j == n_ops - 20 && rng.bool() {
@@ -640,7 +693,11 @@ pub fn run(ctx: &mut Ctx, eng: &mut dyn Engine) {
             }
         }
         ctx.step(eng, "ring f");
-        for _ in 0..6 {
+        // conservation: once finished, everything accepted and not yet read comes out, in order, then end-of-file
+        // (buffers of 1 and 3 bytes only on small rings: the list-based model is quadratic there)
+        let small = if size <= 5000 { [1usize, 3] } else { [1000, 4096] };
+        ctx.step(eng, &format!("ring dr {}", [small[0], small[1], size / 2 + 1, size.max(1)][i % 4]));
+        for _ in 0..2 {
             ctx.step(eng, &format!("ring r {}", size.max(1)));
         }
         ctx.evaluations += 1;
